@@ -227,6 +227,49 @@ CANARIES = {
 }
 
 
+class PixelLimit(Harness):
+    """WMSServer.check_map_request: a GetMap whose width x height exceeds wms.max_output_pixels is refused before anything
+    else happens; one within the limit is not refused for its size"""
+    modules = ['mapproxy.layer', 'mapproxy.service.wms']
+    functions = ['WMSServer.check_map_request']
+
+    @classmethod
+    def build(cls, L, cfg):
+        return dict(w=L.mods['mapproxy.service.wms'])
+
+    @classmethod
+    def inputs(cls, ctx, cfg):
+        wd, ht = int_var('width'), int_var('height')
+        assume(AND(wd >= 1, ht >= 1, wd <= 200000, ht <= 200000))
+        return dict(wd=wd, ht=ht)
+
+    @classmethod
+    def native_inputs(cls, cex):
+        return dict(wd=int(cex['wd']), ht=int(cex['ht']))
+
+    @classmethod
+    def prop(cls, ctx, cfg, wd, ht):
+        import types
+        w = ctx['w']
+        s = w.WMSServer.__new__(w.WMSServer)
+        s.max_output_pixels = cfg['limit']
+        later = []
+        s.validate_layers = lambda r: later.append('layers')
+        s.image_formats, s.srs = {}, []
+
+        class P(dict):
+            pass
+        p = P()
+        p.size = (wd, ht)
+        req = types.SimpleNamespace(params=p, validate_format=lambda f: later.append('format'), validate_srs=lambda x: later.append('srs'))
+        too_large = wd * ht > cfg['limit']
+        try:
+            s.check_map_request(req)
+        except w.RequestError:
+            return AND(too_large, not later)
+        return NOT(too_large)
+
+
 def obligations(tier, seed):
     specs = []
     names = common.grid_names(tier)
@@ -261,6 +304,9 @@ def obligations(tier, seed):
         for ms, mb in (((4, 4), 0), ((3, 2), 10)):
             specs.append(spec('props.C04_meta', 'MetaTileGeo', 'stored-meta-tile-addresses-in-grid/%s/m%dx%d-b%d/L%d' % (gname, ms[0], ms[1], mb, level),
                               cfg=dict(grid=gname, seed=seed, level=level, meta_size=list(ms), meta_buffer=mb), cost=3))
+    for limit in ((4000 * 4000, 40000, 1) if tier == 'thorough' else (4000 * 4000, 40000)):
+        specs.append(spec(MOD, 'PixelLimit', 'wms-pixel-limit/%d' % limit, cfg=dict(limit=limit), cost=3))
+    specs.append(spec(MOD, 'PixelLimit', 'twin/PixelLimit', kind='witness', cfg=dict(limit=40000)))
     twins = dict(TileAddr=dict(grid='utm_ul', origin='nw', use_profiles=False),
                  Render=dict(grid='merc_ll', origin='sw', use_profiles=True, format='png', dims={}),
                  TileLimit=dict(grid='utm_ll', level=3, size=[600, 500], limit=6))
@@ -286,7 +332,7 @@ META = dict(
                 'tile-manager calls for out-of-matrix addresses, wrong formats and dimension values outside the '
                 'configured list; and that CacheMapLayer._image refuses requests at or above max_tile_limit before any '
                 'tile-manager call and hands only in-grid (or None) coordinates to the tile manager.',
-    functions=sorted(set(TileAddr.functions + Render.functions + TileLimit.functions + ['MetaGrid.meta_tile', 'MetaGrid._meta_tile_list'])),
+    functions=sorted(set(TileAddr.functions + Render.functions + TileLimit.functions + PixelLimit.functions + ['MetaGrid.meta_tile', 'MetaGrid._meta_tile_list'])),
     bounds='tile addresses: unbounded ints; formats/dimension values: enumerated cases; map requests: symbolic bbox '
            'of fixed pixel size at the resolution of one level, anywhere overlapping the grid (+- one request size)',
     outside='regex parsing of the URL (re is C code), WMTS KVP parameter parsing, max_output_pixels (plain int comparison, '
